@@ -140,6 +140,9 @@ func genCase(r *core.Rand) *kase {
 	default:
 		k.srvT = ranges(r, 3)
 	}
+	if !k.srvTNil && r.Chance(1, 4) {
+		k.srvDyn = true
+	}
 	switch r.Intn(10) {
 	case 0, 1, 2, 3:
 		k.cihNil = true
@@ -173,6 +176,9 @@ func genCase(r *core.Rand) *kase {
 	if r.Chance(1, 2) {
 		k.hops = 1 + r.Intn(2)
 	}
+	if r.Chance(1, 8) {
+		k.mode = 1
+	}
 	// ---- connection
 	k.remote = remoteAddr(r)
 	if sp, err := parsePrefixes(k.srvT); err == nil && len(sp) > 0 && r.Chance(2, 5) {
@@ -187,6 +193,7 @@ func genCase(r *core.Rand) *kase {
 	}
 	k.tls = r.Chance(1, 2)
 	k.tlsConn = k.tls && r.Chance(1, 4)
+	k.early = k.tls && !k.tlsConn && r.Chance(1, 5)
 	k.host = r.Pick(hostPool)
 	// ---- request header fields, wire order
 	names := append([]string{}, k.effectiveCIH()...)
@@ -262,11 +269,11 @@ func (p *prop) Generate(rng *core.Rand, tier string, emit func(string)) {
 	}
 	// a malformed stream: both sides must answer bad-op
 	for _, l := range []string{
-		"", "req", "nope 1 2 3", "req nil nil 0 . 000 - 0 - . . 0 0",
-		"req nil nil 0 . 000 - 0 - . .", "req nil nil 3 . 000 - 0 - . . 0 0", "req nil nil 0 . 00 - 0 - . . 0 0",
-		"req nil nil 0 . 000 zz 0 - . . 0 0", "req nil nil 0 . 000 - 3 - . . 0 0", "req 10.0.0.0/8 nil 0 nil 000 - 0 - . . 0 0",
-		"req x,y nil 0 . 000 - 0 - . . 0 0", "req nil nil 0 . 000 - 0 - 41 . 0 0", "req nil nil 0 . 000 - 0 - 41:42:43 . 0 0",
-		"req nil nil 0 . 000 - 0 - . . 3 0", "req nil nil 0 . 000 - 0 - . . 1 3", "req nil nil 0 . 000 - 0 - . . 2 2",
+		"", "req", "nope 1 2 3", "req nil nil 0 . 000 - 0 - . . 0 0 0",
+		"req nil nil 0 . 000 - 0 - . . 0", "req nil nil 3 . 000 - 0 - . . 0 0 0", "req nil nil 0 . 00 - 0 - . . 0 0 0",
+		"req nil nil 0 . 000 zz 0 - . . 0 0 0", "req nil nil 0 . 000 - 4 - . . 0 0 0", "req 10.0.0.0/8 nil 0 nil 000 - 0 - . . 0 0 0",
+		"req x,y nil 0 . 000 - 0 - . . 0 0 0", "req nil nil 0 . 000 - 0 - 41 . 0 0 0", "req nil nil 0 . 000 - 0 - 41:42:43 . 0 0 0",
+		"req nil nil 0 . 000 - 0 - . . 3 0 0", "req nil nil 0 . 000 - 0 - . . 1 3 0", "req nil nil 0 . 000 - 0 - . . 2 2 0", "req nil nil 0 . 000 - 0 - . . 0 0 2", "req nil nil 0 . 000 - 0 - . . 0 0",
 	} {
 		emit(l)
 	}
